@@ -355,6 +355,15 @@ def same_iterate(ck, s, o, p, x0, cfg, extra, eg, sc):
     return sm["nit"] == eg["nit"] and float(np.abs(sm["x"] - eg["x"]).max()) <= 1e-8 * sc
 
 
+def at_energy_floor(ck, s, o, p, x0, cfg, extra, eg, F, fscale):
+    """energy decrease of the last eager Newton iteration is at rounding level (|dF| <= 1e-11 scale):
+    `new_energy <= energy` in its line search is then decided by rounding"""
+    pr = run_eager(ck, s, o, p, x0, dict(cfg, maxiter=eg["nit"] - 1, miniter=10 ** 6), extra)
+    if pr["nit"] != eg["nit"] - 1:
+        return False
+    return abs(F(pr["x"]) - F(eg["x"])) <= 1e-11 * fscale
+
+
 def _case(ck, i):
     r = i % 16
     u = int(ck.rng().integers(0, ck.pick(1, 6)))
@@ -464,7 +473,11 @@ def _case(ck, i):
             D = float(np.abs(pe["x"] - eg["x"]).max())
             sc = np.abs(eg["x"]).max() + np.abs(x0).max() + 1e-300
             d = float(np.abs(eg["x"] - sg["x"]).max())
-            if eg["status"] != sg["status"]:
+            differ = eg["status"] != sg["status"] or eg["nit"] != sg["nit"] or d > 1e-9 * sc + 100 * D
+            if differ and eg["nit"] >= 1 and at_energy_floor(ck, s, o, p, x0, cfg, extra, eg, F, fscale):
+                # the last line search compared energies that differ at rounding level
+                ck.hit("energy_floor_skipped")
+            elif eg["status"] != sg["status"]:
                 ck.violation("newton:eager-vs-static-status", "eager and compiled Newton-CG return "
                              "different status", eager=eg["status"], static=sg["status"], cfg=cfg,
                              nit=(eg["nit"], sg["nit"]), nfev=(eg["nfev"], sg["nfev"]))
